@@ -148,6 +148,54 @@ Proof.
     eapply Permutation_NoDup; [|exact Hnd]. apply Permutation_map; auto.
 Qed.
 
+(* the same with a weaker premise on g: it may also look at WHICH letters an environment binds
+   (needed for g e' = h (e' ++ e0), where an unbound letter falls through to e0) *)
+Definition ext_keys (g : env -> R) :=
+  forall e e', (forall l, lookup e l = lookup e' l) -> (forall l, In l (map fst e) <-> In l (map fst e')) -> g e = g e'.
+
+Lemma ext_keys_cons g l i : ext_keys g -> ext_keys (fun e => g ((l, i) :: e)).
+Proof.
+  intros Hg e e' H1 H2. apply Hg.
+  - intros k; simpl. destruct (Nat.eqb l k); auto.
+  - intros k; simpl. rewrite H2. tauto.
+Qed.
+
+Lemma sum_env_swap_keys a na b nb L g : a <> b -> ext_keys g ->
+  sum_env ((a, na) :: (b, nb) :: L) g = sum_env ((b, nb) :: (a, na) :: L) g.
+Proof.
+  intros Hab Hg. rewrite !sum_env_cons.
+  erewrite (sum_map_ext R rO radd). 2:{ intros i. rewrite sum_env_cons. reflexivity. }
+  rewrite (sum_swap R rO rI radd rmul rsub ropp Rth).
+  apply (sum_map_ext R rO radd); intros j. rewrite sum_env_cons.
+  apply (sum_map_ext R rO radd); intros i.
+  apply sum_env_ext; intros e. apply Hg.
+  - intros l; simpl. destruct (Nat.eqb_spec a l), (Nat.eqb_spec b l); subst; auto. congruence.
+  - intros l; simpl. tauto.
+Qed.
+
+Theorem sum_env_perm_keys L L' g :
+  Permutation L L' -> NoDup (map fst L) -> ext_keys g -> sum_env L g = sum_env L' g.
+Proof.
+  intros HP. revert g.
+  induction HP as [| [l n] L L' HP IH | [a na] [b nb] L | L1 L2 L3 HP1 IH1 HP2 IH2]; intros g Hnd Hg.
+  - reflexivity.
+  - rewrite !sum_env_cons. apply (sum_map_ext R rO radd); intros i. apply IH.
+    + simpl in Hnd. inversion Hnd; auto.
+    + apply ext_keys_cons; auto.
+  - apply sum_env_swap_keys; auto. simpl in Hnd. inversion Hnd as [|? ? Hin _]; subst.
+    simpl in Hin. intuition.
+  - rewrite IH1 by auto. apply IH2; auto.
+    eapply Permutation_NoDup; [|exact Hnd]. apply Permutation_map; auto.
+Qed.
+
+Lemma ext_keys_app_r (g : env -> R) e0 : ext g -> ext_keys (fun e => g (e ++ e0)).
+Proof.
+  intros Hg e e' H1 H2. apply Hg. intros k. rewrite !lookup_app.
+  destruct (memb k (map fst e)) eqn:E, (memb k (map fst e')) eqn:E'; auto.
+  - apply memb_In in E. apply H2 in E. apply memb_false in E'. contradiction.
+  - apply memb_In in E'. apply H2 in E'. apply memb_false in E. contradiction.
+Qed.
+
 (* Fubini: a sum over L1 ++ L2 is an iterated sum *)
 Lemma sum_env_app L1 L2 g :
   sum_env (L1 ++ L2) g = sum_env L1 (fun e1 => sum_env L2 (fun e2 => g (e1 ++ e2))).
@@ -178,3 +226,4 @@ End S.
 
 Arguments sum_env {R} rO radd L g.
 Arguments ext {R} g.
+Arguments ext_keys {R} g.
